@@ -224,6 +224,22 @@ package sugardb
 //@   ensures {C19} failed: result != nil ==> (forall k string :: (has(server.store[dbof(ctx)], k) <==> old(has(server.store[dbof(ctx)], k)))) && server.store[dbof(ctx)][key] == old(server.store[dbof(ctx)][key])
 //@   modifies server.store[dbof(ctx)][*], server.memUsed, server.keysWithExpiry.keys[*], server.keysWithExpiry.keys[dbof(ctx)][*], heap:F_eviction_CacheLFU_entries, heap:F_eviction_CacheLRU_entries, heap:E_Peviction_EntryLFU, heap:E_Peviction_EntryLRU, heap:Mdom_string_bool, heap:Mval_string_bool, heap:Mcard_string_bool, heap:F_eviction_EntryLFU_index, heap:F_eviction_EntryLRU_index
 
+// GetConnectionInfo / SetConnectionInfo: the per-connection record (name, protocol, selected database).
+//@ func (*SugarDB).getHandlerFuncParams$2 props C20,C05
+//@   requires server != nil && inv(server, locks) && nolocks()
+//@   ensures {C20} result == server.connInfo.tcpClients[conn]
+//@   ensures {C05} nolocks()
+//@   modifies $lock
+//@ func (*SugarDB).getHandlerFuncParams$3 props C20,C05
+//@   requires server != nil && inv(server, maps) && inv(server, locks) && inv(server, dbs) && nolocks() && server.connInfo.tcpClients != nil
+//@   ensures inv(server, maps) && inv(server, locks) && inv(server, dbs)
+//@   ensures {C20} selected: server.connInfo.tcpClients[conn].Database == database && server.connInfo.tcpClients[conn].Protocol == protocol && server.connInfo.tcpClients[conn].Name == (clientname != "" ? clientname : old(server.connInfo.tcpClients[conn].Name)) && server.connInfo.tcpClients[conn].Id == old(server.connInfo.tcpClients[conn].Id)
+//@   ensures {C20} dbexists: server.store[database] != nil
+//@   ensures {C20} otherconns: forall c *net.Conn :: c != conn ==> (has(server.connInfo.tcpClients, c) <==> old(has(server.connInfo.tcpClients, c))) && server.connInfo.tcpClients[c] == old(server.connInfo.tcpClients[c])
+//@   ensures {C20} data: forall d int :: old(server.store[d]) != nil ==> server.store[d] == old(server.store[d])
+//@   ensures {C05} released: nolocks()
+//@   modifies server.connInfo.tcpClients[*], server.store[*], server.keysWithExpiry.keys[*], server.lfuCache.cache[*], server.lruCache.cache[*], $lock
+
 //@ func (*SugarDB).getClock noalloc props C04
 //@   ensures result == server.clock
 //@   modifies nothing
